@@ -186,6 +186,9 @@ def make_leaves(leaf_descs, vseed, dtype, tag=0):
     for ld in leaf_descs:
         a = rng.standard_normal(tuple(ld["shape"]))
         t = torch.tensor(a, dtype=torch.float64).to(dtype)
+        if ld.get("nc") and t.ndim >= 2:
+            # same values, non-contiguous memory layout (a transposed parameter, a channels_last weight, ...)
+            t = t.transpose(0, -1).contiguous().transpose(0, -1)
         if ld["rg"]:
             t.requires_grad_()
         leaves.append(t)
@@ -307,6 +310,9 @@ class _Gen:
 def _rand_leaf_descs(rng, n, p_rg=0.85):
     descs = [{"shape": list(LEAF_SHAPES[rng.integers(len(LEAF_SHAPES))]), "rg": bool(rng.random() < p_rg)}
              for _ in range(n)]
+    for d in descs:
+        if len(d["shape"]) >= 2 and sum(1 for x in d["shape"] if x > 1) >= 2 and rng.random() < 0.25:
+            d["nc"] = True
     if not any(d["rg"] for d in descs):
         descs[int(rng.integers(n))]["rg"] = True
     return descs
